@@ -82,7 +82,73 @@ def gen_history(rng):
     mode = rng.choice(["pp", "any"])
     nops = rng.randint(1, 6)
     return {"kind": "history", "g": g, "prefix": prefix, "mode": mode, "nops": nops,
-            "opseed": rng.getrandbits(32)}
+            "opseed": rng.getrandbits(32), "refusals": rng.random() < 0.35}
+
+
+def _open_after_refusal(scfg):
+    """What the library's own, non-atomic refusal may legitimately leave at the
+    top level: a target naming no block (control insertion: the head is only
+    added at the end) or a second block without predecessors (the new block is
+    added before the predecessors are looked up)."""
+    g = scfg.graph
+    names = set(g)
+    targeted = set()
+    for b in g.values():
+        for t in tuple(b._jump_targets) + tuple(b.backedges):
+            if t not in names:
+                return "dangling_target"
+            targeted.add(t)
+    if len([k for k in g if k not in targeted]) > 1:
+        return "several_heads"
+    return None
+
+
+def refused_edit(scfg, rng, ctx, P, U, prop, ops_done, mode="any"):
+    """A natural fault: the same edit call with a predecessor name that is not
+    in the graph (first, in the middle or last in the list).  The library
+    refuses it (KeyError) after it may have rerouted the predecessors listed
+    before it.  -> 'continue' | 'stop'"""
+    from ..oracles.hierarchy import check_hierarchy
+
+    ty, kind = rng.choice(_types())
+    variant = rng.choice(["insert", "insert", "control"])
+    if not U:
+        return "continue"
+    S = rng.sample(U, rng.randint(1, min(len(U), 2)))
+    if mode == "pp":
+        S = S[:1]  # what is rerouted before the refusal keeps all paths
+    Pb = list(P)
+    pos = rng.choice([0, len(Pb), len(Pb), rng.randint(0, len(Pb))])
+    Pb.insert(pos, "no_such_block")
+    before = None
+    try:
+        if variant == "insert":
+            new = scfg.name_gen.new_block_name(kind)
+            scfg.insert_block(new, Pb, list(S), ty)
+        else:
+            new = scfg.name_gen.new_block_name("synth_head")
+            scfg.insert_block_and_control_blocks(new, Pb, list(S))
+        ctx.hit("history.bad_predecessor_accepted")
+        ops_done.append(["refused_" + variant, new, Pb, S, "accepted"])
+    except Exception as e:
+        ctx.hit("history.refused_edits")
+        ctx.hit("history.refused_edits.pos_" + ("first" if pos == 0 else "last" if pos == len(P) else "middle"))
+        ops_done.append(["refused_" + variant, new, Pb, S, type(e).__name__])
+    why = _open_after_refusal(scfg)
+    if why is not None:
+        # the unchanged library leaves such graphs itself: nothing is claimed
+        # about them and the history ends here
+        ctx.hit("history.ended_after_refusal." + why)
+        return "stop"
+    # the graph is closed under names and has one head: whatever was rerouted
+    # before the refusal must have been rerouted at every level
+    try:
+        check_hierarchy(scfg)
+        ctx.hit("history.hierarchy_checked_after_refusal")
+    except Viol as v:
+        ctx.violation(prop, "hierarchy_inconsistent_after_refused_edit:" + v.kind, v.detail)
+        return "stop"
+    return "continue"
 
 
 def run_history(case, acc, post_edit=None, entry_ops=False, prop="C14", active=(),
@@ -123,6 +189,12 @@ def run_history(case, acc, post_edit=None, entry_ops=False, prop="C14", active=(
                     U.append(t)
         op = rng.choice(["insert", "insert", "control", "control", "join_returns", "jte"]
                         + (["entry", "entry"] if entry_ops else []))
+        if case.get("refusals") and rng.random() < 0.35:
+            if refused_edit(scfg, rng, ctx, P, U, prop, ops_done, mode) == "stop":
+                break
+            if post_edit is not None:
+                post_edit(ctx, scfg)
+            continue
         try:
             if op == "entry":
                 # a new entry block in front of the current head (public API)
